@@ -475,6 +475,29 @@ template <class G> G fresh(const Model &m) {
     return g;
 }
 
+// Build a real graph with the class's edge-list constructor from a list of (i, j, value) entries.
+template <class G> G constructFromList(const std::vector<std::tuple<unsigned, unsigned, long>> &entries) {
+    using T = Tr<G>;
+    using L = typename T::Label;
+    if constexpr (T::fam == PLAIN && !T::labelled) {
+        std::vector<BaseGraph::Edge> c;
+        for (auto &e : entries) c.push_back({std::get<0>(e), std::get<1>(e)});
+        return G(c);
+    } else if constexpr (T::fam == PLAIN) {
+        std::list<BaseGraph::LabeledEdge<L>> c;
+        for (auto &e : entries) c.push_back(BaseGraph::LabeledEdge<L>{std::get<0>(e), std::get<1>(e), LabelAlpha<L>::value(std::get<2>(e))});
+        return G(c);
+    } else if constexpr (T::fam == MULTI) {
+        std::vector<BaseGraph::LabeledEdge<BaseGraph::EdgeMultiplicity>> c;
+        for (auto &e : entries) c.push_back(BaseGraph::LabeledEdge<BaseGraph::EdgeMultiplicity>{std::get<0>(e), std::get<1>(e), (BaseGraph::EdgeMultiplicity)std::get<2>(e)});
+        return G(c);
+    } else {
+        std::list<BaseGraph::LabeledEdge<BaseGraph::EdgeWeight>> c;
+        for (auto &e : entries) c.push_back(BaseGraph::LabeledEdge<BaseGraph::EdgeWeight>{std::get<0>(e), std::get<1>(e), weightOf(std::get<2>(e))});
+        return G(c);
+    }
+}
+
 // --------------------------------------------------------------------------- public-API key
 // Everything the public API shows about the object, neighbour ORDER included (see DESIGN.md E1).
 // `complete` additionally records, for every pair, whether the throwing label getter throws.
